@@ -1,7 +1,7 @@
 // C20: stream insertion / extraction of mpz_class and mpq_class under every stream state of the rows TLC enumerates (CxxStreamModel.tla),
 // side by side with the standard library on the equal long.  Events are decided by CxxStream.tla (SemN: cxx_ostream, cxx_ostream_q, cxx_istream,
 // cxx_istream_q).  Rows file (written by lib/props.py from the TLC output), tab separated:
-//   OS base adj showbase showpos upper width fill value(hex numeral)
+//   OS base adj showbase showpos upper width fill value(hex numeral) q(1: also format mpq_class values)
 //   IS basefield skipws "json string"
 #include <cstdio>
 #include <cstdlib>
@@ -47,7 +47,7 @@ static void os_row(const vector<string> &f) {
     fprintf(out, "{\"e\":\"fn\",\"f\":\"cxx_ostream\",\"i\":{%s,\"v\":\"%s\",\"havel\":%d},\"o\":{\"z\":\"%s\",\"wz\":%ld,\"zz\":\"%s\",\"l\":\"%s\",\"wl\":%ld}}\n", st, z.get_str(16).c_str(), havel,
             esc(c.str()).c_str(), wa, esc(both).c_str(), esc(l).c_str(), wl);
   }
-  for (int d = 0; d < 2; d++) {      // mpq_class with denominator 1 and with a denominator that stays
+  if (f[9] == "1") for (int d = 0; d < 2; d++) {      // mpq_class with denominator 1 and with a denominator that stays
     mpq_class q(z, d ? 29 : 1); q.canonicalize();
     ostringstream a; a.flags(fl); a.width(w); a.fill(fill); a << q;
     fprintf(out, "{\"e\":\"fn\",\"f\":\"cxx_ostream_q\",\"i\":{%s,\"n\":\"%s\",\"d\":\"%s\"},\"o\":{\"q\":\"%s\",\"wq\":%ld}}\n", st, q.get_num().get_str(16).c_str(), q.get_den().get_str(16).c_str(),
@@ -70,6 +70,21 @@ static void is_row(const vector<string> &f) {
             ok, q.get_num().get_str(16).c_str(), q.get_den().get_str(16).c_str(), pos, eof); }
 }
 
+static string fvalj(mpf_srcptr x) {
+  int n = x->_mp_size < 0 ? -x->_mp_size : x->_mp_size; string s = "{\"v\":\"";
+  if (n == 0) s += "0"; else { if (x->_mp_size < 0) s += "-"; char b[24]; snprintf(b, sizeof b, "%lx", (unsigned long)x->_mp_d[n - 1]); s += b;
+    for (int i = n - 2; i >= 0; i--) { snprintf(b, sizeof b, "%016lx", (unsigned long)x->_mp_d[i]); s += b; } }
+  char t[96]; snprintf(t, sizeof t, "\",\"sz\":%d,\"exp\":%ld,\"prec\":%d}", (int)x->_mp_size, (long)x->_mp_exp, (int)x->_mp_prec); return s + t; }
+static void fs_row(const vector<string> &f) {       // mpf_class extraction next to double extraction
+  bool skip = f[1] == "TRUE"; ios::fmtflags fl = ios::dec; if (skip) fl |= ios::skipws;
+  string text = unesc(f[2]);
+  istringstream is(text); is.flags(fl); streampos p0 = is.tellg();
+  mpf_class x(0.0, 128); mpf_set_ui(x.get_mpf_t(), 0xDEAD); is >> x; int ok = is ? 1 : 0, eof = is.eof(); is.clear(); long pos = (long)(is.tellg() - p0);
+  istringstream ls(text); ls.flags(fl); double d = 0; ls >> d; int lok = ls ? 1 : 0; ls.clear(); long lpos = (long)(ls.tellg() - p0);
+  fprintf(out, "{\"e\":\"fn\",\"f\":\"cxx_istream_f\",\"i\":{\"skipws\":%s,\"s\":\"%s\"},\"o\":{\"ok\":%d,\"f\":%s,\"pos\":%ld,\"eof\":%d,\"lok\":%d,\"lpos\":%ld}}\n", tf(skip), esc(text).c_str(),
+          ok, fvalj(x.get_mpf_t()).c_str(), pos, eof, lok, lpos);
+}
+
 void stream_section(const char *rows) {
   FILE *f = fopen(rows, "r"); if (!f) { fprintf(stderr, "cannot read %s\n", rows); exit(3); }
   char *line = 0; size_t cap = 0; long k = 0;
@@ -79,8 +94,9 @@ void stream_section(const char *rows) {
     if (k % 400 == 0) fprintf(out, "{\"e\":\"reset\",\"drv\":\"cxxstream\",\"x\":%ld,\"seed\":\"0\"}\n", k / 400);
     k++;
     vector<string> v = split(l);
-    if (v[0] == "OS" && v.size() == 9) os_row(v);
+    if (v[0] == "OS" && v.size() == 10) os_row(v);
     else if (v[0] == "IS" && v.size() == 4) is_row(v);
+    else if (v[0] == "FS" && v.size() == 3) fs_row(v);
     else { fprintf(stderr, "bad row: %s\n", l.c_str()); exit(3); }
   }
   free(line); fclose(f);
